@@ -39,6 +39,12 @@ def canon(t: dict) -> dict:
         return t
     if name == "List":
         t.pop("bullet", None)
+        # tight/loose is not in C01's list of preserved things; 'preserve keeps every list as authored' is C10's
+        # statement and the tight flag is compared there (harness/c10.py)
+        t.pop("tight", None)
+    if name in ("CodeSpan", "InlineHTML") and isinstance(t.get("s"), str):
+        # C01: 'the same text up to runs of whitespace'; C04: code spans, tags and HTML up to collapsing of whitespace runs
+        t["s"] = re.sub(r"\s+", " ", t["s"])
     if name in ("Link", "Image", "AutoLink", "Url"):
         t["title"] = re.sub(r"\s+", " ", t["title"]) if t.get("title") else None
     if "c" in t:
@@ -97,32 +103,177 @@ def tree_diff(a: dict, b: dict, path="") -> str | None:
     return None
 
 
-HAZ_HEAD = re.compile(r"^\s*(?:[>\-+*#=_`~|]|\d+[.)]|<[a-zA-Z!/])")
+MARKER_WORD = re.compile(r"^(?:[-*+_=]+|>.*|#{1,6}|`{3,}.*|~{3,}.*|\d{1,9}[.)])$")
+CONTAINER_PREFIX = re.compile(r"^(?:> ?|\s|[-*+] |\d+[.)] |\[\^[^\]]*\]: )*")
+
+
+QUOTE_PREFIX = re.compile(r"^(?:> ?|\s)*")
+
+
+def new_line_heads(c):
+    """first words of output lines that head more output lines than input lines (multiset difference)"""
+    from collections import Counter
+    cin, cout = Counter(), Counter()
+    for l in (c.get("parser_input") or c["doc"]).split("\n"):
+        body = QUOTE_PREFIX.sub("", l)
+        if body.strip():
+            cin[body.split()[0]] += 1
+    for l in c.get("out", "").split("\n"):
+        body = QUOTE_PREFIX.sub("", l)
+        if body.strip():
+            cout[body.split()[0]] += 1
+    heads = [w for w in cout if cout[w] > cin[w]]
+    # a '>' that heads the text of a line (relative to the quote depth of the line before) is itself a candidate
+    def rel_heads(text):
+        hs = Counter()
+        lines = text.split("\n")
+        for a, b in zip(lines, lines[1:]):
+            depth = re.match(r"^[ >]*", a).group().count(">")
+            rest = b
+            for _ in range(depth):
+                rest = re.sub(r"^\s*> ?", "", rest, count=1)
+            if rest.strip():
+                hs[rest.split()[0]] += 1
+        return hs
+    rin, rout = rel_heads(c.get("parser_input") or c["doc"]), rel_heads(c.get("out", ""))
+    heads += [w for w in rout if rout[w] > rin[w] and w.startswith(">")]
+    return heads
+
+
+# fixed inputs that reproduce each listed finding (run on every check so the finding is reported)
+REPRO = {
+    "D-1c": ("See the list below please. 1. First do this thing now.\n", dict(width=88, semantic=True)),
+    "D-1b": ("aaa bbb <div> ddd eee fff\n", dict(width=8, semantic=False)),
+    "D-35": ("see http://bare.url/p?q=1  \nnext line\n", dict(width=88, semantic=False)),
+    "D-36": ("* a\n* ___\n* b\n", dict(width=88, semantic=False)),
+    "D-38": (")*\"+-\"_>!_/\n", dict(width=88, semantic=False)),
+    "D-40": ("aaa bb \\ ccc ddd\n", dict(width=8, semantic=False)),
+    "D-41": ("[f]: d mo\n", dict(width=7, semantic=False)),
+    "D-43": ("> [^fn]: one\n>\n> [^fn]: two\n>     three\n>\n>     four\n", dict(width=88, semantic=False)),
+    "D-44": ("___ a\n", dict(width=1, semantic=False)),
+    "D-45": ("- [r]: /u\n\n- b\n", dict(width=88, semantic=False)),
+    "D-46": ("a\\\nb\n===\n", dict(width=88, semantic=False)),
+    "D-47": ("e\\\n    > x\n", dict(width=88, semantic=False)),
+    "D-48": ("本 * **3*4**\n", dict(width=1, semantic=False)),
+    "D-49": ("```  *  ```\n", dict(width=88, semantic=False)),
+    "D-37": ("1) one\n2) two\n\n1. three\n2. four\n", dict(width=88, semantic=False)),
+}
 
 
 def classify(kf, rec):
     c = rec["case"]
     cl = kf.get("classifier")
     what = rec["what"]
-    out = c.get("out", "")
-    if cl == "line-start-hazard":
-        # some output line that is not a line start of the input's paragraph begins with block syntax
-        # and the disagreement is a paragraph turning into / absorbing another block
-        in_lines = set(l.strip() for l in c.get("parser_input", c["doc"]).split("\n"))
-        for l in out.split("\n"):
-            body = re.sub(r"^(?:> ?|\s|[-*+] |\d+\. )*", "", l)
-            if HAZ_HEAD.match(body) and l.strip() not in in_lines and not c.get("_diff"):
+    doc = c.get("doc", "")
+    if c.get("_diff"):
+        return False          # the implementation no longer behaves like the pinned model here: not a listed finding
+    if cl == "sentence-head-unescaped":
+        return bool(c["opts"].get("semantic")) and any(MARKER_WORD.match(w) for w in new_line_heads(c))
+    if cl == "html-or-table-at-line-start":
+        return "HTML block start" in what
+    if cl == "closing-tag-unindented":
+        return bool(re.search(r"^(?:\{% /|\{# /|\{\{ /|<!-- /)", c.get("out", ""), flags=re.M)) and \
+            bool(re.search(r"^(?:\s+|[-*+>] .*|\d+[.)] .*)(?:\{% /|\{# /|\{\{ /|<!-- /)", doc, flags=re.M))
+    if cl == "nested-bracket-link":
+        return bool(re.search(r"\[[^\]]*!\[[^\]]*\][^\]]*\]\(", doc)) and ("Link" in what or "Image" in what or "title" in what)
+    if cl == "url-before-hard-break":
+        src = c.get("parser_input") or doc
+        # a two-space hard break directly after a bare URL or after a delimiter run: the backslash written instead joins the token
+        return ("Url.dest" in what and bool(re.search(r"\S  +\n", src))) or \
+            (bool(re.search(r"[*_~]  +\n", src)) and any(k in what for k in ("Emphasis", "Strong", "Strikethrough", "Text")))
+    if cl == "marker-word-alone-on-line":
+        src_lines = {QUOTE_PREFIX.sub("", l).strip() for l in (c.get("parser_input") or doc).split("\n")}
+        for l in c.get("out", "").split("\n"):
+            body = CONTAINER_PREFIX.sub("", l).strip()
+            if re.fullmatch(r"[-*_]{3,}|=+|-+", body) and body not in src_lines:
                 return True
         return False
-    if cl == "refdef-title-delimiters":
-        return ".title" in what and ("LinkRefDef" in what or "link_ref_defs" in what) or "link_ref_defs" in what
-    if cl == "angle-destination":
-        return bool(re.search(r"\]\(<[^>]* [^>]*>", c["doc"]))
-    if cl == "info-string-backslash":
-        return "/Code.lang" in what or "/Code.extra" in what
-    if cl == "table-in-container":
-        return "Table" in what and bool(re.search(r"^\s*(?:>|[-*+] |\d+[.)] ).*\|", c["doc"], flags=re.M))
+    if cl == "linkrefdef-in-list-item":
+        def has(t, inside):
+            if t["t"] == "LinkRefDef" and inside:
+                return True
+            return any(has(k, inside or t["t"] == "ListItem") for k in t.get("c", []))
+        try:
+            return any(k in what for k in ("ListItem", "List", "LinkRefDef", "link_ref_defs")) and has(mdast.doc_tree(c.get("parser_input") or doc), False)
+        except Exception:
+            return False
+    if cl == "break-in-star-list":
+        return bool(re.search(r"^\s*\* (?:\*\s*\*\s*\*|_\s*_\s*_|-\s*-\s*-)[\s*_-]*$", doc, flags=re.M))
+    if cl == "ordered-delimiter-merge":
+        return bool(re.search(r"^\s*\d+\)", doc, flags=re.M)) and bool(re.search(r"^\s*\d+\.", doc, flags=re.M)) and "List" in what
+    if cl == "backslash-word-at-wrap-point":
+        # a word ending in an odd number of backslashes, followed by a blank (not a newline) and another word, in the parser input
+        src = c.get("parser_input") or doc
+        return bool(re.search(r"(?<!\\)(?:\\\\)*\\[ \t]+\S", src)) and \
+            len(re.findall(r"(?<!\\)(?:\\\\)*\\\n", c.get("out", ""))) > len(re.findall(r"(?<!\\)(?:\\\\)*\\\n|  +\n", src))
+    if cl == "wrap-creates-link-definition":
+        return "link_ref_defs" in what and bool(re.search(r"^\s*(?:[-*+>] |\d+[.)] )*\[[^\]]+\]:", c.get("out", ""), flags=re.M)) and "{} became" in what
+    if cl == "footnote-def-in-container":
+        # a footnote definition that is nested in a container or itself holds a list / quote / code / another definition
+        def hit(t, inside):
+            if t["t"] == "FootnoteDef" and (inside or any(k["t"] not in ("Paragraph", "BlankLine") for k in t.get("c", []))):
+                return True
+            return any(hit(k, inside or t["t"] in ("Quote", "Alert", "List", "ListItem", "FootnoteDef")) for k in t.get("c", []))
+        try:
+            return "FootnoteDef" in what and hit(mdast.doc_tree(c.get("parser_input") or doc), False)
+        except Exception:
+            return False
+    if cl == "hard-break-in-setext-heading":
+        def hb(t, inside):
+            if inside and t["t"] == "LineBreak" and not t.get("soft"):
+                return True
+            return any(hb(k, inside or t["t"] == "SetextHeading") for k in t.get("c", []))
+        try:
+            return "Heading" in what and hb(mdast.doc_tree(c.get("parser_input") or doc), False)
+        except Exception:
+            return False
+    if cl == "hard-break-segment-head-unescaped":
+        lines = c.get("out", "").split("\n")
+        for a, b in zip(lines, lines[1:]):
+            if re.search(r"(?<!\\)(?:\\\\)*\\$", a):
+                pre = re.match(r"^[ >]*", a).group()
+                body = b[len(pre):] if b.startswith(pre) else b.lstrip()
+                if body.split() and MARKER_WORD.match(body.split()[0]):
+                    return True
+        return False
+    if cl == "escaped-star-changes-marko-delimiters":
+        esc_line = any(re.match(r"^(?:\\[*_])+(?:\s|$)", CONTAINER_PREFIX.sub("", l)) for l in c.get("out", "").split("\n"))
+        return esc_line and any(k in what for k in ("Text", "Emphasis", "Strong"))
+    if cl == "code-span-padding-lost":
+        m = re.search(r"CodeSpan\.s: (['\"])(.*)\1 became (['\"])(.*)\3$", what, flags=re.S)
+        return bool(m) and m.group(2) != m.group(4) and m.group(2).strip() == m.group(4).strip()
+    if cl == "underscore-emphasis-repaired":
+        words = re.findall(r"[A-Za-z]{2,}", doc)
+        return "_" in doc and "*" in doc and ("Emphasis" in what or "Text.s" in what) and len(words) < 3
     return False
+
+
+HTML6 = ("address|article|aside|base|basefont|blockquote|body|caption|center|col|colgroup|dd|details|dialog|dir|div|dl|dt|"
+         "fieldset|figcaption|figure|footer|form|frame|frameset|h1|h2|h3|h4|h5|h6|head|header|hr|html|iframe|legend|li|link|main|"
+         "menu|menuitem|nav|noframes|ol|optgroup|option|p|param|search|section|summary|table|tbody|td|tfoot|th|thead|title|tr|track|ul")
+HTML_BLOCK_START = re.compile(r"^(?:<(?:script|pre|style|textarea)(?:[\s>]|$)|<!--|<\?|<![A-Za-z]|<!\[CDATA\[|</?(?:%s)(?:[\s>]|/>|$))" % HTML6, re.I)
+
+
+def html_line_start_check(parser_input: str, out: str):
+    """CommonMark rule flowmark's own parser configuration does not apply (it never builds HTML blocks): an HTML block
+    start of kinds 1-6 interrupts a paragraph.  Reports a word that the output puts at the start of a paragraph
+    continuation line although no input line starts with it."""
+    in_heads = set()
+    for l in parser_input.split("\n"):
+        body = CONTAINER_PREFIX.sub("", l)
+        if body.strip():
+            in_heads.add(body.split()[0])
+    prev_blank = True
+    for l in out.split("\n"):
+        body = CONTAINER_PREFIX.sub("", l)
+        if not body.strip():
+            prev_blank = True
+            continue
+        w = body.split()[0]
+        if not prev_blank and HTML_BLOCK_START.match(w) and w not in in_heads:
+            return f"an HTML block start was moved to the start of a paragraph continuation line: {l!r} (a CommonMark reader ends the paragraph there)"
+        prev_blank = False
+    return None
 
 
 def reparse_check(doc_in: str, out: str):
@@ -132,6 +283,54 @@ def reparse_check(doc_in: str, out: str):
     if d is None and ta.get("link_ref_defs") != tb.get("link_ref_defs"):
         d = f"link_ref_defs: {ta.get('link_ref_defs')} became {tb.get('link_ref_defs')}"
     return d
+
+
+SPEC_ALPHA = list("-+*_=#>`~.)1290ab\\|[]<:!")
+
+
+def validate_block_start_spec(chk: Check, n: int) -> None:
+    """Model/BlockStart.v against the parser flowmark uses: a word w for which opens_block_word w = false must not end or
+    change the paragraph when it heads a continuation line, alone ('x' / 'w') or followed by text ('x' / 'w y').
+    (HTML block starts are outside the specification: D-1b.)"""
+    from common import model_batch, enc_str, Toks
+    import gen_words
+    rng = chk.rng
+    words = set(gen_words.HAZARD_WORDS) | {"--", "==", "**", "__", "- -", "1.", "1)", "123456789.", "1234567890.", "#######", "```x", "```x`", "~~~x", "````",
+                                           ">", ">>", "\\-", "\\>", "1\\.", "\\*\\*\\*", "+", "++", "*_*", "-=-", "=", "|", "|-|", "|---|", ":-:", "[x]:", "[x]:y"}
+    while len(words) < n:
+        k = rng.choice([1, 1, 2, 2, 3, 3, 4, 5, 7])
+        words.add("".join(rng.choice(SPEC_ALPHA) for _ in range(k)))
+    words = sorted(w for w in words if w and not any(ch.isspace() for ch in w))
+    ans = model_batch(["opens_block_word " + enc_str(w) for w in words], shards=1)
+    esc = model_batch(["escape_word " + enc_str(w) for w in words], shards=1)
+    nb = 0
+    nopen = 0
+    for w, a, e in zip(words, ans, esc):
+        opens = Toks(a).bool()
+        ew = Toks(e).str()
+        nopen += opens
+        chk.count()
+        for cand, label in ((w, "unescaped word the specification calls harmless"), (ew, "escaped form")):
+            if cand is w and opens:
+                continue
+            if cand.startswith("<"):
+                continue
+            for tail in ("", " y"):
+                doc = "x\n" + cand + tail + "\n"
+                t = mdast.doc_tree(doc)
+                kids = [k for k in t["c"] if k["t"] != "BlankLine"]
+                ok = len(kids) == 1 and kids[0]["t"] == "Paragraph" and not t.get("link_ref_defs")
+                if ok:
+                    flat = "".join(k.get("s", "\n") if k["t"] in ("RawText", "Literal", "LineBreak") else "?" for k in kids[0]["c"])
+                    ok = not any(k["t"] == "LineBreak" and not k.get("soft") for k in kids[0]["c"])
+                if not ok:
+                    nb += 1
+                    if nb <= 5:
+                        chk.notes.append(f"BlockStart spec: {label} {cand!r} heads a line and the parser reads {[k['t'] for k in kids]} for {doc!r}")
+    chk.hist("spec_words_opening", nopen)
+    chk.port_stat("spec validation: opens_block_word = false => Marko keeps one paragraph", len(words), nb)
+    if nb:
+        chk.broken.append(f"specification Model/BlockStart.v is incomplete against the parser: {nb} words")
 
 
 def run(chk: Check) -> None:
@@ -148,8 +347,14 @@ def run(chk: Check) -> None:
     rng = chk.rng
     n = 1 if tier == "quick" else 10
     rx.validate(chk, ["re_md_specials", "re_md_numeral", "re_pangu", "re_line_break"], tier, per_pattern=600 if tier == "quick" else None)
+    validate_block_start_spec(chk, 1500 * n)
     opts = docports.OPTION_SETS[:10]
-    cases = docports.gen_cases(chk, 500 * n, malformed_share=0.1, opts=opts)
+    gen_docs.AVOID = {"tags_in_prose", "html_block_words", "bare_url", "mixed_ordered_delims", "break_in_list", "tags_in_containers", "backslash_word", "footnote_in_container", "marker_first_word", "refdef_in_container"}
+    cases = docports.gen_cases(chk, 500 * n, malformed_share=0.0, opts=opts)
+    gen_docs.AVOID = set()
+    for fid, (doc, o) in REPRO.items():
+        oo = dict(width=o["width"], semantic=o["semantic"], cleanups=False, smartquotes=False, ellipses=False, list_spacing="preserve")
+        cases.append({"doc": doc, "opts": oo, "repro": fid})
     docports.run_fill_port(chk, cases)
     nb = 0
     for i, c in enumerate(cases):
@@ -171,6 +376,8 @@ def run(chk: Check) -> None:
         if c["doc"].count("\n\n") >= 2:
             chk.nontrivial((c["doc"], json.dumps(c["opts"], sort_keys=True)))
         chk.hist("width", c["opts"]["width"])
+        if d is None:
+            d = html_line_start_check(c["parser_input"], c["out"])
         if d:
             nb += 1
             chk.fail("property", {"doc": c["doc"], "opts": c["opts"], "out": c["out"], "parser_input": c["parser_input"], "_diff": c.get("_diff", False)},
